@@ -15,6 +15,8 @@ verus! {
 
 //@INCLUDE rice.inc
 
+//@INCLUDE pi_value.inc
+
 // ---------------------------------------------------------------------------
 // pi codes (src/codes/pi.rs)
 // ---------------------------------------------------------------------------
@@ -120,41 +122,6 @@ pub proof fn lemma_pi_q<E: Endianness>(s: Seq<bool>, p: int, pos1: int, lam: u64
     }
     let x0 = choose|x: u64| x < u64::MAX && #[trigger] starts(s, p, pi_bits(le, x, k));
     lemma_pi_split(s, p, le, x0, k);
-}
-
-/// a value in [2^lam, 2^(lam+1)) is 2^lam plus its lam low bits
-pub proof fn lemma_pi_value(le: bool, m: u64, lam: nat, low: u64)
-    requires
-        lam <= 63, pow2(lam) <= m, (m as nat) < pow2(lam + 1),
-        (low as nat) < pow2(lam), field(le, low, lam) == field(le, m, lam),
-    ensures pow2(lam) + low == m,
-{
-    let pk = pow2(lam);
-    lemma_pow2_pos(lam);
-    let lowx = (m as nat % pk) as u64;
-    lemma_field_low(le, m, lam);
-    lemma_mod_bound(m as int, pk as int);
-    lemma2_to64();
-    lemma2_to64_rest();
-    lemma_pow2_strictly_increases(lam, 64);
-    lemma_field_injective(le, low, lowx, lam);
-    lemma_pow2_unfold(lam + 1);
-    lemma_fundamental_div_mod(m as int, pk as int);
-    assert(m as nat / pk == 1) by (nonlinear_arith) requires pk <= m, (m as nat) < 2 * pk, pk > 0;
-}
-
-/// 1 << lam is 2^lam, and adding a value below 2^lam cannot overflow
-pub proof fn lemma_pi_top(lam: u64, top: u64, low: u64)
-    requires lam <= 63, top == 1u64 << lam, (low as nat) < pow2(lam as nat),
-    ensures top == pow2(lam as nat), top + low <= u64::MAX, top + low >= 1,
-{
-    lemma2_to64();
-    lemma2_to64_rest();
-    lemma_pow2_strictly_increases(lam as nat, 64);
-    lemma_pow2_pos(lam as nat);
-    lemma_u64_shl_is_mul(1, lam);
-    assert(pow2(64) == 2 * pow2(63)) by { lemma_pow2_unfold(64); }
-    if lam < 63 { lemma_pow2_strictly_increases(lam as nat, 63); }
 }
 
 /// after the fixed-width part
